@@ -6,12 +6,43 @@ CfgStream == [mtu |-> 56, sndwnd |-> 2, rcvwnd |-> 2, nodelay |-> 0, interval |-
 CfgMsg    == [CfgStream EXCEPT !.stream = 0]
 CfgFast   == [mtu |-> 56, sndwnd |-> 3, rcvwnd |-> 3, nodelay |-> 1, interval |-> 10, resend |-> 2, nc |-> 1, stream |-> 1, acknodelay |-> 1]
 CfgFastCC == [CfgFast EXCEPT !.nc = 0]
+CfgWnd1   == [CfgStream EXCEPT !.sndwnd = 4, !.rcvwnd = 1]
+CfgClean  == [mtu |-> 56, sndwnd |-> 3, rcvwnd |-> 32, nodelay |-> 0, interval |-> 40, resend |-> 2, nc |-> 0, stream |-> 1, acknodelay |-> 0]
+CfgWide   == [mtu |-> 80, sndwnd |-> 5, rcvwnd |-> 5, nodelay |-> 1, interval |-> 10, resend |-> 1, nc |-> 0, stream |-> 1, acknodelay |-> 0]
 NoForged  == {}
+
+(* forged one-segment datagrams: fields relative to the receiver's state (see KcpNet!Forge) *)
+FSeg(cmd, dsn, duna, wnd, dts, len, bad) ==
+  [cmd |-> cmd, frg |-> 0, wnd |-> wnd, dts |-> dts, dsn |-> dsn, duna |-> duna, len |-> len, bad |-> bad]
+ForgedSmall ==
+  { FSeg(CMD_PUSH, d, 0, 2, 0, 8, 0) : d \in {-1, 0, 1, 2} } \cup
+  { FSeg(CMD_ACK, 0, u, w, 0, 0, 0) : u \in {0, 1, 5}, w \in {0, 65535} } \cup
+  { FSeg(CMD_WASK, 0, 0, 1, 0, 0, 0), FSeg(CMD_PUSH, 0, 0, 2, 0, 8, 1) }
+ForgedAll ==
+  { FSeg(CMD_PUSH, d, u, w, 0, l, 0) : d \in {-2, -1, 0, 1, 2, 3, 1000000}, u \in {0, 2, 1000000}, w \in {0, 1, 65535}, l \in {0, 8, 32} } \cup
+  { FSeg(CMD_ACK, d, u, w, t, 0, 0) : d \in {-1, 0, 1, 2, 1000000}, u \in {-1, 0, 1, 2, 1000000}, w \in {0, 2, 65535}, t \in {0, -50, 50} } \cup
+  { FSeg(c, 0, 0, w, 0, 0, b) : c \in {CMD_WASK, CMD_WINS, CMD_PUSH}, w \in {0, 3}, b \in {0, 1, 2, 3} }
+ForgedAcks ==
+  { FSeg(CMD_ACK, d, 0, 32, t, 0, 0) : d \in {0, 1}, t \in {0, -1, -99, -100, -101, -59999, -60000, -60001, 1, 100, -134217728, 134217728} }
 SnOff00   == <<0, 0>>
+SnOffA    == <<Mod - 1, Mod \div 2 - 1>>
+SnOffB    == <<Mod \div 2 - 2, Mod - 2>>
+SnOffC    == <<Mod - 3, Mod - 1>>
+SnOffD    == <<Mod \div 2, Mod \div 2 - 3>>
+
+(* clean path for C18: FIFO, zero delay, nothing lost or duplicated, the reader reads at once; time only passes when *)
+(* nothing is deliverable or readable; flushes happen in rounds (Drive = "tick")                                      *)
+CleanNext ==
+  \/ \E e \in Ends, n \in WriteSizes : Send(e, n)
+  \/ Deliver(1, 0)
+  \/ \E e \in Ends : PeekSize(k[e]) >= 0 /\ Recv(e, 100000)
+  \/ net = <<>> /\ (\A e \in Ends : PeekSize(k[e]) < 0) /\ \E d \in Ticks : Tick(d)
+  \/ \E e \in Ends : Flush(e)
+CleanSpec == Init /\ [][CleanNext]_vars
 
 EdgeOut ==
-  PrintT(<<"EDGE", ToJson([from |-> [s |-> Proj, a |-> act, h |-> <<faults, rd, wr, latch, phase>>],
-                           to   |-> [s |-> Proj', a |-> act', h |-> <<faults', rd', wr', latch', phase'>>]])>>)
+  PrintT(<<"EDGE", ToJson([from |-> [s |-> Proj, a |-> act, h |-> <<faults, rd, wr, latch, reinfl, phase>>],
+                           to   |-> [s |-> Proj', a |-> act', h |-> <<faults', rd', wr', latch', reinfl', phase'>>]])>>)
 
 (* simulation: print the behaviour (action + projected post-state per step) when it reaches depth SimDepth *)
 =============================================================================
